@@ -50,6 +50,16 @@ EXC = {'E1': E1, 'E2': E2, 'E3': E3, 'B': B1}
 EXC_PARENTS = {'E1': ('E1', 'Exception'), 'E2': ('E2', 'E1', 'Exception'), 'E3': ('E3', 'Exception'), 'B': ('B',)}
 
 
+def plan_outcome(plan, idx, kd):
+    """per-attempt outcome of a node for the invocation number idx with these kwargs.  'E1?' = raise E1 only for
+    one half of the argument space (decided by the kwargs digest), so that the same node fails for some inputs /
+    runs and succeeds for others - still a pure function of (declaration, arguments, attempt)."""
+    outcome = plan[idx] if idx < len(plan) else 'ok'
+    if outcome.endswith('?'):
+        outcome = outcome[:-1] if int(kd, 16) % 2 == 0 else 'ok'
+    return outcome
+
+
 def exc_matches(outcome: str, filt) -> bool:
     """Does an exception of plan-class `outcome` match the node's `exceptions` setting?"""
     if not filt:
@@ -139,7 +149,7 @@ def _start(nspec: dict, kwargs: dict):
     inv[key] = idx + 1
     sim.log('body_start', name, (kd, idx, tuple(sorted((k, vrepr(v)) for k, v in kw.items()))))
     plan = nspec.get('plan') or ()
-    outcome = plan[idx] if idx < len(plan) else 'ok'
+    outcome = plan_outcome(plan, idx, kd)
     return sim, run, name, kw, kd, idx, outcome
 
 
